@@ -111,6 +111,11 @@ Lemma wake_in t v : In t (ready (wake t v)).
 Proof. cbn. apply insert_sorted_in. now left. Qed.
 Lemma le_logged l v : le_env v (logged l v).
 Proof. split; auto. Qed.
+Lemma le_log_all ls v : le_env v (log_all ls v).
+Proof.
+  unfold log_all. revert v. induction ls as [|l ls IH]; intro v; [apply le_env_refl|].
+  cbn [fold_left]. eapply le_env_trans; [apply (le_logged l)|apply IH].
+Qed.
 Lemma le_spawn v : le_env v (snd (spawn v)).
 Proof. split; [reflexivity|]. intros x Hx. cbn. apply insert_sorted_in. now right. Qed.
 Lemma le_new_node v : le_env v (snd (new_node v)).
@@ -459,7 +464,9 @@ Proof.
   induction i as [id m n|f e id m x|id m ps ks IH|f memo c a b br ch IH] using inst_ind'; intros v Hi.
   - cbn. repeat split; auto.
   - cbn [poll inv] in *. destruct (due t f) eqn:Hd.
-    + split; [|split; [reflexivity|apply (le_logged (lbl f))]]. cbn [inv]. split; [reflexivity|discriminate].
+    + split; [|split; [reflexivity|]].
+      * cbn [inv]. split; [reflexivity|discriminate].
+      * eapply le_env_trans; [apply (le_logged (lbl f + cleanup_mark))|apply le_logged].
     + split; [|split; [reflexivity|apply le_env_refl]]. cbn [inv]. eapply not_due_ok; eauto. apply le_env_refl.
   - rewrite poll_elem. rewrite inv_elem in Hi. destruct Hi as [Hp Hk].
     pose proof (poll_props_ok t ps v Hp) as H1. destruct (poll_props t ps v) as [[ps' mp] v1].
@@ -485,19 +492,24 @@ Proof.
         split; [split; [intros _; now rewrite Hm|discriminate]|]. split; [now rewrite B|exact A].
       * destruct (Bool.eqb (nz (eval (sigs v) c)) br) eqn:Hb.
         -- (* same side: rebuild *)
-           apply eqb_prop in Hb. set (v1 := logged (lbl f) v).
+           apply eqb_prop in Hb. set (v1 := logged (lbl f) (log_all (cleanups ch) v)).
+           assert (Lv1 : le_env v v1).
+           { eapply le_env_trans; [apply (le_log_all (cleanups ch))|apply le_logged]. }
            pose proof (rebuild_ok ch v1) as H. destruct (rebuild ch v1) as [[ch' rep] v2].
-           destruct H as (A & B & C).
+           destruct H as (A & B & C). rewrite (proj1 Lv1) in A.
            split; [|split; [reflexivity|]].
            ++ cbn [inv]. split; [split; [intros _; now rewrite Hb|discriminate]|].
               split; [now rewrite B|]. eapply inv_mono; [|exact A]. intros y [].
-           ++ eapply le_env_trans; [apply (le_logged (lbl f))|exact C].
+           ++ eapply le_env_trans; [exact Lv1|exact C].
         -- (* other side: build the new branch, drop the old state *)
-           set (v1 := logged (lbl f) v). set (br' := nz (eval (sigs v) c)).
+           set (v1 := logged (lbl f) (log_all (cleanups ch) v)). set (br' := nz (eval (sigs v) c)).
+           assert (Lv1 : le_env v v1).
+           { eapply le_env_trans; [apply (le_log_all (cleanups ch))|apply le_logged]. }
            pose proof (build_ok (if br' then a else b) v1) as H.
            destruct (build (if br' then a else b) v1) as [ch' v2]. destruct H as (A & B & C).
+           rewrite (proj1 Lv1) in A.
            assert (L : le_env v (let v3 := dispose ch v2 in if memo then wake (eid f) v3 else v3)).
-           { eapply le_env_trans; [apply (le_logged (lbl f))|]. eapply le_env_trans; [exact C|].
+           { eapply le_env_trans; [exact Lv1|]. eapply le_env_trans; [exact C|].
              eapply le_env_trans; [apply (le_dispose ch)|]. cbv zeta. destruct memo; [apply le_wake|apply le_env_refl]. }
            split; [|split; [reflexivity|exact L]].
            cbn [inv]. split; [split; [reflexivity|discriminate]|].
